@@ -529,6 +529,7 @@ type Contract struct {
 	Trusted   bool     // assumed, body not verified (listed as assumption)
 	OvfAssume bool     // signed 64-bit overflow assumed absent instead of proved
 	CallPre   []Clause // obligations at call sites (Name = callee/method name)
+	RetWhen   []Clause // `return N: E`: the N-th return statement (source order) is taken only when E (Name = N)
 	NoWrite   []string // heap keys this function (transitively) never writes: static frame obligations
 	Function  bool     // pure AND deterministic: its result is an uninterpreted function of its arguments and the memory they reach; callable in contracts
 	PureFuncs bool     // function-typed parameters are pure total deterministic functions (assumption)
@@ -599,7 +600,7 @@ func (cf *ContractFile) parse(src, file string) error {
 	}
 	keywords := map[string]bool{"func": true, "extern": true, "requires": true, "ensures": true, "modifies": true, "pure": true,
 		"floats": true, "mode": true, "inline": true, "trusted": true, "ovf": true, "loop": true, "lemma": true, "spec": true,
-		"opt": true, "ghost": true, "specfold": true, "allocates": true, "uses": true, "nopanic": true, "purefuncs": true, "function": true, "nowrite": true, "callpre": true}
+		"opt": true, "ghost": true, "specfold": true, "allocates": true, "return": true, "uses": true, "nopanic": true, "purefuncs": true, "function": true, "nowrite": true, "callpre": true}
 	var clauses []string
 	for _, ln := range lines {
 		if ln == "" {
@@ -806,6 +807,22 @@ func (c *Contract) addClause(kw, rest string) error {
 		c.Allocates = true
 		c.Pure = false
 		c.ModSet = true
+	case "return":
+		// return N: E — an obligation at the N-th return statement of the function (source order):
+		// "this return is taken only when E"; locals are in scope
+		i := strings.Index(rest, ":")
+		if i < 0 {
+			return fmt.Errorf("return clause needs 'N: expr'")
+		}
+		if _, err := strconv.Atoi(strings.TrimSpace(rest[:i])); err != nil {
+			return fmt.Errorf("return clause: %v", err)
+		}
+		cl, err := parseClause(rest[i+1:])
+		if err != nil {
+			return err
+		}
+		cl.Name = strings.TrimSpace(rest[:i])
+		c.RetWhen = append(c.RetWhen, cl)
 	case "function":
 		c.Function = true
 		c.Pure = !c.Allocates
